@@ -27,6 +27,8 @@ func VerifSetup() {
 		MarshalIndent(v, "", " ")
 	}
 	// decoder side: compile the decoders of the harness target types once
+	Unmarshal([]byte(`{}`), &vcT{})
+	Unmarshal([]byte(`{}`), &vdS2{})
 	Unmarshal([]byte(`{}`), &vkA{})
 	Unmarshal([]byte(`{}`), &vkB{})
 	Unmarshal([]byte(`{}`), &vaT{})
